@@ -4,9 +4,11 @@ import (
 	"context"
 	"database/sql"
 	"fmt"
+	"math/rand/v2"
 	"reflect"
 	"sort"
 	"strings"
+	"sync"
 	"sync/atomic"
 
 	"ariga.io/atlas/sql/migrate"
@@ -48,10 +50,74 @@ type permEnv struct {
 	seed    uint64
 	sources map[string]*permSource // dialect + "|" + name
 	order   []string
+	mu      sync.Mutex
+	bases   map[string]*baseline // dialect|source|mode
+}
+
+// baseline is what the source in its LISTED order gives for one mode; computed once per (source,
+// mode) under its own sync.Once and read-only afterwards.
+type baseline struct {
+	once    sync.Once
+	p       planned
+	dump    []string // order-normalised dump of the evaluated graph
+	setup   []string // SQLite: statements creating the current state
+	cat     []string // SQLite: catalogue after setup + plan
+	execOK  bool
+	execErr string
+}
+
+func (e *permEnv) baseline(s *permSource, mode string) *baseline {
+	k := string(s.d) + "|" + s.name + "|" + mode
+	e.mu.Lock()
+	b := e.bases[k]
+	if b == nil {
+		b = &baseline{}
+		e.bases[k] = b
+	}
+	e.mu.Unlock()
+	b.once.Do(func() {
+		b.p = planFor(s, mode, []HFile{{Name: "schema.hcl", Text: s.doc}})
+		if b.p.err != nil {
+			return
+		}
+		b.dump = dumpRealm(b.p.realm)
+		b.p.realm = nil // graphs are never shared between cases
+		if s.d == dmodel.SQLite && len(s.models) == 1 {
+			var err error
+			if b.setup, err = setupStmts(s, mode); err != nil {
+				b.execErr = "setup-plan: " + err.Error()
+				return
+			}
+			b.cat, err = execCatalogue(b.setup, b.p.cmds)
+			if err != nil {
+				b.execErr = err.Error()
+				return
+			}
+			b.execOK = true
+		}
+	})
+	return b
+}
+
+// execCatalogue runs setup and plan on a fresh in-memory SQLite database and dumps its catalogue.
+// Errors of the setup statements are prefixed with "setup".
+func execCatalogue(setup, cmds []string) ([]string, error) {
+	db, err := openMem()
+	if err != nil {
+		return nil, fmt.Errorf("setup: open: %w", err)
+	}
+	defer db.Close()
+	if err := execAll(db, setup); err != nil {
+		return nil, fmt.Errorf("setup: %w", err)
+	}
+	if err := execAll(db, cmds); err != nil {
+		return nil, err
+	}
+	return catalogue(db)
 }
 
 func newPermEnv(seed uint64) *permEnv {
-	e := &permEnv{seed: seed, sources: map[string]*permSource{}}
+	e := &permEnv{seed: seed, sources: map[string]*permSource{}, bases: map[string]*baseline{}}
 	add := func(s *permSource) {
 		s.doc = docOf(s.models...)
 		s.blocks = Blocks(s.doc)
@@ -69,22 +135,37 @@ func newPermEnv(seed uint64) *permEnv {
 			byName[m.Name] = m
 		}
 		for _, m := range pool {
-			// the fixed other side: the derived variant ~1 of a hand written model, the hand written
-			// model of a derived one.
-			on := m.Name + "~1"
-			if i := strings.Index(m.Name, "~"); i >= 0 {
-				on = m.Name[:i]
+			// the fixed other side: a relative of the model (derived variant of a hand written model,
+			// the hand written model of a derived one) that Atlas can plan from and to; else a short
+			// seeded walk that it can.
+			stem := m.Name
+			if i := strings.Index(stem, "~"); i >= 0 {
+				stem = stem[:i]
 			}
-			other := byName[on]
+			self := uniq(m.Clone())
+			var other *dmodel.Model
+			for _, on := range []string{stem + "~1", stem, stem + "~2"} {
+				if o := byName[on]; o != nil && on != m.Name {
+					o = uniq(o.Clone())
+					if plansOK(d, o, self) && plansOK(d, self, o) {
+						other = o
+						break
+					}
+				}
+			}
 			if other == nil {
-				other = m
+				other, _ = goodWalk(d, self, 5, rand.New(rand.NewPCG(seed, 0xBED<<8|uint64(len(m.Name)))))
 			}
-			add(&permSource{name: "pool:" + m.Name, d: d, models: []*dmodel.Model{uniq(m.Clone())}, other: uniq(other.Clone())})
+			add(&permSource{name: "pool:" + m.Name, d: d, models: []*dmodel.Model{self}, other: other})
 		}
 		all, half, aux := bigModels(seed, d)
-		add(&permSource{name: "all", d: d, models: []*dmodel.Model{all}, other: half})
+		edited, _ := goodWalk(d, all, 12, rand.New(rand.NewPCG(seed, 0xBEE<<8|uint64(len(d)))))
+		add(&permSource{name: "all", d: d, models: []*dmodel.Model{all}, other: edited})
 		add(&permSource{name: "half", d: d, models: []*dmodel.Model{half}, other: all})
-		add(&permSource{name: "all+aux", d: d, models: []*dmodel.Model{all, aux}, other: half})
+		add(&permSource{name: "dag", d: d, models: []*dmodel.Model{dagModel(seed, d)}, other: half})
+		if d != dmodel.SQLite { // the SQLite planner refuses AddSchema / DropSchema
+			add(&permSource{name: "all+aux", d: d, models: []*dmodel.Model{all, aux}, other: half})
+		}
 	}
 	return e
 }
@@ -515,7 +596,8 @@ func onePerm(e *permEnv, pc PermCase) (res permResult) {
 		cls = "files"
 	}
 	keyOf := func(what string) string { return fmt.Sprintf("perm|%s|%s|%s|%s", pc.Dialect, pc.Mode, cls, what) }
-	base := planFor(s, pc.Mode, []HFile{{Name: "schema.hcl", Text: s.doc}})
+	bl := e.baseline(s, pc.Mode)
+	base := bl.p
 	perm := planFor(s, pc.Mode, s.permFiles(pc))
 	if base.err != nil {
 		// the unpermuted source itself is not accepted: outside the claim, unless the permuted one is.
@@ -550,17 +632,17 @@ func onePerm(e *permEnv, pc PermCase) (res permResult) {
 		return
 	}
 	// (2) the evaluated graph is the same up to the order of its top-level objects
-	db, dp := dumpRealm(base.realm), dumpRealm(perm.realm)
-	if a, b := multisetDiff(db, dp); len(a)+len(b) > 0 {
+	if a, b := multisetDiff(bl.dump, dumpRealm(perm.realm)); len(a)+len(b) > 0 {
 		res.verdict, res.key = "violated", keyOf("evaluated-graph")
 		res.why = fmt.Sprintf("%s %s: the evaluated schema differs after permuting the blocks: %.300q vs %.300q", pc.Dialect, pc.Source, first(a), first(b))
 		res.detail["only_in_listed_order"] = show(a, 5)
 		res.detail["only_in_permuted"] = show(b, 5)
 		return
 	}
-	// (3) the differ sees no difference between the two evaluations, in both directions (fresh graphs)
+	// (3) the differ sees no difference between the two evaluations (fresh graphs; the direction
+	// alternates with the case so that both directions are exercised over the run)
 	a := apis[s.d]
-	for dir := 0; dir < 2; dir++ {
+	{
 		r1, e1 := a.evalFiles([]HFile{{Name: "schema.hcl", Text: s.doc}})
 		r2, e2 := a.evalFiles(s.permFiles(pc))
 		if e1 != nil || e2 != nil {
@@ -568,6 +650,11 @@ func onePerm(e *permEnv, pc PermCase) (res permResult) {
 			res.why = fmt.Sprintf("%s %s: second evaluation of the same source fails: %v %v", pc.Dialect, pc.Source, e1, e2)
 			return
 		}
+		dir := 0
+		for _, v := range pc.Perm[:min(len(pc.Perm), 4)] {
+			dir += v
+		}
+		dir = (dir + len(pc.Split) + len(pc.Mode)) % 2
 		if dir == 1 {
 			r1, r2 = r2, r1
 		}
@@ -578,54 +665,38 @@ func onePerm(e *permEnv, pc PermCase) (res permResult) {
 			return
 		}
 	}
-	// (4) SQLite: execute both plans on real databases and compare the catalogues
+	// (4) SQLite: both plans are executed on real databases and the catalogues compared
 	if s.d == dmodel.SQLite && len(s.models) == 1 {
-		setup, err := setupStmts(s, pc.Mode)
-		if err != nil {
-			res.verdict = "inconclusive"
-			res.key = "setup-plan"
+		if !bl.execOK && strings.HasPrefix(bl.execErr, "setup") {
+			res.verdict, res.key = "inconclusive", "setup-exec"
+			res.detail["error"] = bl.execErr
+			return
+		}
+		cat, err := execCatalogue(bl.setup, perm.cmds)
+		switch {
+		case err != nil && strings.HasPrefix(err.Error(), "setup"):
+			res.verdict, res.key = "inconclusive", "setup-exec"
 			res.detail["error"] = err.Error()
 			return
-		}
-		var cats [2][]string
-		var errs [2]error
-		for k, cmds := range [][]string{base.cmds, perm.cmds} {
-			db, err := openMem()
-			if err != nil {
-				res.verdict, res.key = "inconclusive", "open-db"
-				return
-			}
-			if err := execAll(db, setup); err != nil {
-				db.Close()
-				res.verdict, res.key = "inconclusive", "setup-exec"
-				res.detail["error"] = err.Error()
-				return
-			}
-			if errs[k] = execAll(db, cmds); errs[k] == nil {
-				cats[k], errs[k] = catalogue(db)
-			}
-			db.Close()
-		}
-		switch {
-		case errs[0] != nil && errs[1] != nil:
+		case !bl.execOK && err != nil:
 			// the engine refuses both plans: not a determinism question
 			res.verdict, res.key = "inconclusive", "exec-both-fail"
-			res.detail["error"] = errs[0].Error()
+			res.detail["error"] = bl.execErr
 			return
-		case errs[0] != nil || errs[1] != nil:
+		case !bl.execOK || err != nil:
 			res.verdict, res.key = "violated", keyOf("executes-only-one-order")
-			res.why = fmt.Sprintf("sqlite %s %s: SQLite executes the plan of one block order but not of the other: listed=%v permuted=%v", pc.Source, pc.Mode, errs[0], errs[1])
+			res.why = fmt.Sprintf("sqlite %s %s: SQLite executes the plan of one block order but not of the other: listed=%q permuted=%v", pc.Source, pc.Mode, bl.execErr, err)
 			return
 		}
 		res.executed = true
-		if x, y := multisetDiff(cats[0], cats[1]); len(x)+len(y) > 0 {
+		if x, y := multisetDiff(bl.cat, cat); len(x)+len(y) > 0 {
 			res.verdict, res.key = "violated", keyOf("resulting-schema")
 			res.why = fmt.Sprintf("sqlite %s %s: the databases reached by the two plans differ (PRAGMA catalogue): %.300q vs %.300q", pc.Source, pc.Mode, first(x), first(y))
 			res.detail["only_in_listed_order"] = show(x, 6)
 			res.detail["only_in_permuted"] = show(y, 6)
 			return
 		}
-		res.detail["catalogue_lines"] = len(cats[0])
+		res.detail["catalogue_lines"] = len(cat)
 	}
 	res.verdict = "held"
 	return
@@ -673,14 +744,17 @@ func isIdentity(p []int) bool {
 
 // permCases lists the cases of the tier: a pure function of (seed, tier).
 func permCases(c *rt.Ctx, e *permEnv) (cases []PermCase, exhaustive, sampled int) {
-	nSeeded := 50
 	for _, k := range e.order {
+		nSeeded := 50
 		s := e.sources[k]
 		n := len(s.blocks)
 		big := !strings.HasPrefix(s.name, "pool:")
 		modes := []string{"create", "drop", "modify", "rev"}
 		if !big && c.Quick() {
 			modes = []string{"create", "modify"}
+		}
+		if big && c.Quick() {
+			nSeeded = 12
 		}
 		var perms [][]int
 		r := c.Rand(0xBE, uint64(len(cases)))
@@ -736,6 +810,10 @@ func permCases(c *rt.Ctx, e *permEnv) (cases []PermCase, exhaustive, sampled int
 			cases = append(cases, PermCase{Dialect: string(s.d), Source: s.name, Mode: mode, Perm: id, Split: sp})
 		}
 	}
+	// the heavy sources first, so that they do not form the tail of the parallel run
+	sort.SliceStable(cases, func(i, j int) bool {
+		return !strings.HasPrefix(cases[i].Source, "pool:") && strings.HasPrefix(cases[j].Source, "pool:")
+	})
 	return
 }
 
@@ -778,7 +856,7 @@ func runPerm(c *rt.Ctx) map[string]any {
 			c.Violation(res.key, res.why, cs, res.detail)
 			return
 		}
-		if c.WantSample() && res.moved && res.executed && src != "pool" {
+		if res.moved && (res.executed || pc.Dialect != "sqlite") && src != "pool" && sampleSlot(&permSamples, 2) {
 			c.Sample(map[string]any{"leg": "perm", "case": map[string]any{"dialect": pc.Dialect, "source": pc.Source, "mode": pc.Mode, "files": cls, "perm_head": pc.Perm[:min(8, len(pc.Perm))]},
 				"statements": res.stmts, "sequence_changed": res.moved, "sqlite_executed": res.executed, "verdict": "held"})
 		}
